@@ -27,7 +27,8 @@ RULE = ('Depth-1 grids: (stoichiometry, reactant, phase assignment, basis, X) fo
 ASSUMPTIONS = [
     'PKG_RXN; every chemical has Hf, Hfus and Hvap(298.15) (0 for the supercritical gases); Glucose has no gas-phase enthalpy model, so '
     'streams containing Glucose are liquid or multi-phase with Glucose solid',
-    'feeds: reactants in excess of the conversion, diluted in 200 kmol/hr CO2 (gas and multi-phase feeds) or water (liquid feeds); T in {280, 298.15, 350, 450} K; '
+    'feeds: reactants in excess of the conversion, diluted in 200 kmol/hr CO2 (gas and multi-phase feeds) or water (liquid feeds); T in {280, 298.15, 350, 450} K '
+    '(thorough: 10 temperatures 280..450 K and Q up to +-1e5 kJ/hr for single reactions and the curated sets, 7 temperatures for generated pairs, 5 for generated 3/4-tuples); '
     'Q in {0, +1e4, -1e4} kJ/hr; X patterns {0.3.., 1.., mixed, all 0, reactants absent from the feed}',
     'isothermal clause: the exact identity dHnet = sum dn_i (Hf_i + h_i) is used everywhere; the literal sentence of the property only where it is '
     'thermodynamically meaningful (T = 298.15 K, every reacting species in its reference phase) — DESIGN 3 C06(b)',
@@ -102,7 +103,7 @@ class DH(System):
 
     def configs(self, tier, seed):
         cfgs = []
-        for ri in range(len(MENU)):
+        for ri in rc.menu_range(tier):
             species = list(MENU[ri][1])
             reactants = rc.reactants_of(ri)
             assigns = [None] + list(itertools.product('slg', repeat=len(species)))
@@ -217,25 +218,29 @@ class DHSum(System):
 
     def configs(self, tier, seed):
         cfgs = []
-        for ri in range(len(MENU)):
+        for ri in rc.menu_range(tier):
             species = list(MENU[ri][1])
+            nat = tuple(rc.NAT_PHASE[k] for k in species)
+            bases = [nat] if tier == 'quick' else [nat] + [a for a in itertools.product('slg', repeat=len(species)) if a != nat]
             for r in rc.reactants_of(ri):
-                for sp in species:
-                    if sp == r: continue                   # the two routes must share the reactant slot (phase, chemical)
-                    for p2 in 'slg':
-                        if p2 == rc.NAT_PHASE[sp]: continue
-                        for route in ('mol', 'wt-set'):
-                            if tier == 'quick' and route != 'mol' and r != rc.reactants_of(ri)[0]: continue
-                            cfgs.append((ri, r, sp, p2, route))
+                for base in bases:                         # thorough: EVERY phase assignment of the first route
+                    for sp in species:
+                        if sp == r: continue               # the two routes must share the reactant slot (phase, chemical)
+                        for p2 in 'slg':
+                            if p2 == base[species.index(sp)]: continue
+                            for route in ('mol', 'wt-set'):
+                                if tier == 'quick' and route != 'mol' and r != rc.reactants_of(ri)[0]: continue
+                                if base == nat: cfgs.append((ri, r, sp, p2, route))
+                                else: cfgs.append((ri, r, sp, p2, route, base))
         k = seed % len(cfgs)
         return cfgs[k:] + cfgs[:k]
 
     def build(self, config):
         t = fx.tmo()
-        ri, r, sp, p2, route = config
+        ri, r, sp, p2, route = config[:5]
         st = St(); st.config = config
         d = MENU[ri][1]
-        st.asg_a = {k: rc.NAT_PHASE[k] for k in d}
+        st.asg_a = {k: rc.NAT_PHASE[k] for k in d} if len(config) == 5 else dict(zip(d, config[5]))
         st.asg_b = dict(st.asg_a); st.asg_b[sp] = p2
         def mk(asg, X):
             rx = t.Reaction(rc.as_string(d, asg), reactant=r, X=X, chemicals=_chems, phases='gls')
@@ -250,10 +255,10 @@ class DHSum(System):
 
     def step(self, st, a):
         t = fx.tmo()
-        ri, r, sp, p2, route = st.config
+        ri, r, sp, p2, route = st.config[:5]
         wt = route != 'mol'
         op = a[0]
-        match = dict(op=op, basis='wt' if wt else 'mol', phases=''.join(sorted((rc.NAT_PHASE[sp], p2))))
+        match = dict(op=op, basis='wt' if wt else 'mol', phases=''.join(sorted((st.asg_a[sp], p2))))
         wa = model_dH(ri, r, 0.3, st.asg_a, wt); wb = model_dH(ri, r, 0.5, st.asg_b, wt)
         try:
             if op == 'routes': pairs = [(st.a.dH, wa), (st.b.dH, wb)]
@@ -275,7 +280,7 @@ class DHSum(System):
         for got, want in pairs:
             if np.ndim(got) != 0 or abs(float(got) - want) > 1e-9 * max(abs(want), 1.0):
                 raise Violation('dH-value', f'{op}: dH = {np.asarray(got).tolist()!r}; the routes give {want!r} '
-                                f'({sp} as {rc.NAT_PHASE[sp]} in one route, as {p2} in the other)', match=dict(match, how='two-phase-species'),
+                                f'({sp} as {st.asg_a[sp]} in one route, as {p2} in the other)', match=dict(match, how='two-phase-species'),
                                 residual=abs(float(np.ravel(got)[0]) - want) / max(abs(want), 1.0))
         st.last = (a, fx.r12(pairs[0][1]))
         return (op, fx.r12(pairs[0][1]))
@@ -283,13 +288,14 @@ class DHSum(System):
     def canon(self, st): return (st.config, rc.rxn_digest(st.a), rc.rxn_digest(st.b), st.last)
     def nontrivial(self, st, a, obs): return a[0] != 'routes'
     def outcome(self, st, a, obs):
-        ri, r, sp, p2, route = st.config
-        return repr((a[0], route, _C[sp].phase_ref, rc.NAT_PHASE[sp], p2))
+        ri, r, sp, p2, route = st.config[:5]
+        return repr((a[0], route, _C[sp].phase_ref, st.asg_a[sp], p2))
 
 # =========================================================================================================
 # reaction objects for the stream clauses
 
-SINGLES = [(ri, r) for ri in range(len(MENU)) for r in rc.reactants_of(ri)]
+SINGLES = [(ri, r) for ri in range(rc.MENU_QUICK_N) for r in rc.reactants_of(ri)]
+SINGLES_T = [(ri, r) for ri in range(len(MENU)) for r in rc.reactants_of(ri)]          # thorough: the whole menu
 PAIRS_G = [((0, 'H2'), (2, 'CH4')), ((2, 'CH4'), (11, 'CH4')), ((11, 'CH4'), (3, 'CO')), ((5, 'CO'), (10, 'H2')), ((3, 'CO'), (3, 'CO')),
            ((6, 'CH4'), (5, 'CO')), ((0, 'O2'), (3, 'O2'))]
 PAIRS_L = [((1, 'Glucose'), (8, 'Glucose')), ((1, 'Glucose'), (4, 'Ethanol')), ((4, 'Ethanol'), (9, 'Ethanol')), ((7, 'Glucose'), (12, 'Ethanol'))]
@@ -314,16 +320,49 @@ def stream_configs(tier):
         for kind in ('P', 'S', 'Y'):
             for route in routes: cfgs.append((kind, its, 'nat', route))
     if tier != 'quick':
-        # thorough: every ordered pair of the gas-phase single reactions, as parallel / series / system
-        gas = [it for it in SINGLES if not has_glucose((it,))]
         seen = set(cfgs)
+        def add(c):
+            if c not in seen: seen.add(c); cfgs.append(c)
+        # thorough: the whole menu as single reactions, with every phase-tag variant
+        for it in SINGLES_T:
+            maps = []
+            for tag in ('none', 'nat', 'wg', 'ws', 'gl', 'vap'):
+                if tag != 'none':
+                    tm = rc.tags_of(it[0], tag)
+                    if tm in maps: continue
+                    maps.append(tm)
+                for route in routes: add(('single', (it,), tag, route))
+        # every ordered pair of the gas-phase single reactions, as parallel / series / system
+        gas = [it for it in SINGLES_T if not has_glucose((it,))]
         for a in gas:
             for b in gas:
                 for kind in ('P', 'S', 'Y'):
-                    for route in routes:
-                        c = (kind, (a, b), 'none', route)
-                        if c not in seen: cfgs.append(c)
+                    for route in routes: add((kind, (a, b), 'none', route))
+        # sets of 3 and 4 reactions (all ordered tuples over small pools), gas, liquid (glucose) and phase-tagged
+        for pool, n in ((GAS6, 3), (GAS6[:4], 4), (LIQ4, 3), (LIQ4[:3], 4)):
+            for its in itertools.product(pool, repeat=n):
+                for kind in ('P', 'S', 'Y'):
+                    for route in routes: add((kind, its, 'none', route))
+        for its in itertools.product(TAG3, repeat=3):
+            for kind in ('P', 'S', 'Y'):
+                for route in routes: add((kind, its, 'nat', route))
+        for its in itertools.product(TAG3, repeat=2):
+            for kind in ('P', 'S', 'Y'):
+                for route in routes: add((kind, its, 'nat', route))
     return cfgs
+
+GAS6 = [(0, 'H2'), (2, 'CH4'), (11, 'CH4'), (3, 'CO'), (5, 'CO'), (21, 'O2')]
+LIQ4 = [(1, 'Glucose'), (4, 'Ethanol'), (8, 'Glucose'), (19, 'Glucose')]
+TAG3 = [(0, 'H2'), (2, 'CH4'), (4, 'Ethanol')]
+
+_FINE = None
+def grid_class(config):
+    """'fine' for single reactions and the curated sets, 'medium' for generated pairs, 'coarse' for generated 3/4-tuples"""
+    global _FINE
+    if _FINE is None: _FINE = set(stream_configs('quick'))
+    kind, items, tag, route = config
+    if kind == 'single' or config in _FINE: return 'fine'
+    return 'medium' if len(items) == 2 else 'coarse'
 
 def make_obj(config, Xs):
     t = fx.tmo()
@@ -429,6 +468,11 @@ class Iso(System):
         xps = ('p3', 'one', 'mix') if self.tier != 'quick' else ('p3', 'one')
         # nothing reacts (X = 0 / reactant absent): the heat input must still arrive, the isothermal call must change nothing
         xps = xps + ('zero', 'nofeed')
+        if self.tier != 'quick':
+            g = grid_class(st.config)
+            if g == 'fine': Ts = (280.0, 290.0, T_REF, 310.0, 330.0, 350.0, 375.0, 400.0, 425.0, 450.0)
+            elif g == 'medium': Ts = (280.0, T_REF, 320.0, 350.0, 375.0, 400.0, 450.0); xps = ('p3', 'one', 'mix', 'zero')
+            else: Ts = (280.0, T_REF, 350.0, 400.0, 450.0)
         return phases, Ts, xps
 
     def _cases(self, st):
@@ -482,6 +526,12 @@ class Iso(System):
             if Q is not None and 'extrapolate' in str(e):
                 raise Rejected('property model left its temperature range while solving for the outlet temperature', cut=True)
             raise Violation('unexpected-exception', f'RuntimeError: {e}', match=dict(match, exc='RuntimeError'))
+        except TypeError as e:
+            # no temperature of the liquid satisfies the balance; the enthalpy setter retries as gas, and Glucose has no gas-phase
+            # enthalpy model (Hvap at Tb is missing in the data): outside the property models' range
+            if Q is not None and single == 'l' and s.phase == 'g' and float(tgt.read()[POS['Glucose']]) > 0:
+                raise Rejected('no liquid outlet temperature; the gas-phase retry has no enthalpy model for Glucose', cut=True)
+            raise Violation('unexpected-exception', f'TypeError: {e}', match=dict(match, exc='TypeError'))
         except Exception as e:
             raise Violation('unexpected-exception', f'{type(e).__name__}: {e}', match=dict(match, exc=type(e).__name__))
         got = tgt.read()
@@ -539,6 +589,10 @@ class Adiabatic(Iso):
 
     def actions(self, st):
         Qs = (0.0, 1e4, -1e4, 'default')
+        if self.tier != 'quick':
+            g = grid_class(st.config)
+            if g == 'fine': Qs = (0.0, 1e3, -1e3, 1e4, -1e4, 1e5, -1e5, 'default')
+            elif g == 'medium': Qs = (0.0, 1e4, -1e4, 1e5, -1e5, 'default')
         acts = []
         for ph, T, xp in self._cases(st):
             for Q in Qs:
@@ -592,15 +646,20 @@ HIST = [('single', ((0, 'H2'),), 'none', 'mol'), ('single', ((2, 'CH4'),), 'none
         ('Y', ((6, 'CH4'), (5, 'CO'), (0, 'H2')), 'none', 'mol'), ('P', ((0, 'H2'), (4, 'Ethanol')), 'nat', 'mol'),
         ('single', ((1, 'Glucose'),), 'none', 'mol')]
 
+HIST_T = [('single', ((21, 'CH4'),), 'none', 'mol'), ('single', ((13, 'H2O'),), 'nat', 'wt-set'), ('P', ((3, 'CO'), (5, 'CO')), 'none', 'wt-set'),
+          ('S', ((6, 'CH4'), (5, 'CO'), (0, 'H2'), (3, 'CO')), 'none', 'mol'), ('Y', ((1, 'Glucose'), (4, 'Ethanol'), (8, 'Glucose')), 'none', 'mol'),
+          ('S', ((0, 'H2'), (2, 'CH4')), 'nat', 'wt-set')]
+
 class History(System):
     name = 'c06.history'
     nontrivial_per_config = True
     def warm(self): _load()
     def reset_globals(self): rc.reset_reaction_globals()
-    def depth(self, tier): return 3 if tier == 'quick' else 4
+    def depth(self, tier): return 3 if tier == 'quick' else 5
     def configs(self, tier, seed):
-        k = seed % len(HIST)
-        return HIST[k:] + HIST[:k]
+        H = HIST if tier == 'quick' else HIST + HIST_T
+        k = seed % len(H)
+        return H[k:] + H[:k]
 
     def build(self, config):
         kind, items, tag, route = config
